@@ -11,6 +11,8 @@ CONSTANTS
   Roles = {"server", "client"}
   Modes = {"receptor", "dns"}
   StreamSrcs <- StreamSrcsQuick
+  MaxTick = 1
+  KF_TimeFrozenAtCreation = FALSE
   KF_DigestCachedAcrossCalls = TRUE
   KF_ColonSplit = FALSE
   DumpFile = ""
